@@ -137,7 +137,7 @@ func (fx *FuncCtx) step(st *State, in ssa.Instruction) (forks []*State, ended bo
 		// map lookup or string index
 		if _, ok := x.X.Type().Underlying().(*types.Map); ok {
 			mv, _ := st.val(x.X).(MapVal)
-			okT := fx.FreshSym("mapok", SBool)
+			okT := fx.mapHas(st, mv, st.val(x.Index))
 			if mv.Len.S != "" {
 				// a lookup can only succeed in a non-empty map
 				st.assume(Implies(okT, BVSlt(i64(0), mv.Len)))
